@@ -462,6 +462,8 @@ class CallMixin:
                 return True
             if isinstance(v, UVal) and v.cls in (None, "array", "key"):
                 if v.cls in ("array", "key"):
+                    if name == "Tracer":      # an opaque array may be a concrete array (eager call) or a tracer (jit / staging)
+                        return SBool(self.ctx.fn("is_tracer_u", U, z3.BoolSort())(v.t), True)
                     return True
                 return SBool(self.ctx.fn("is_Array", U, z3.BoolSort())(v.t), True)
             if name == "ArrayLike" and isinstance(v, (bool, int, float)):
